@@ -334,6 +334,10 @@ EXPECT = {
   "c10_several_padding_blocks"
  ],
  "C11": [
+  "cue_non_cdda_accepted",
+  "cue_non_cdda_accepted_254_tracks",
+  "cue_non_cdda_accepted_index_254",
+  "cue_non_cdda_accepted_128_digit_catalog",
   "cue_isrc_with_dashes",
   "c11_flipped_metadata_still_accepted",
   "c11_list_refused",
